@@ -68,10 +68,20 @@ class KaniOutcome:
         self.bounded_checks_ok = 0
 
 
+MEM_CAP_BYTES = int(os.environ.get("VERIF_KANI_MEM_GB", "24")) * 1024 ** 3
+
+
+def _limit_mem():
+    # a CBMC process that needs more than this is a blow-up, not a proof: it ends as UNDECIDED instead of
+    # starving the machine (address-space limit is inherited by kani-driver and cbmc)
+    import resource
+    resource.setrlimit(resource.RLIMIT_AS, (MEM_CAP_BYTES, MEM_CAP_BYTES))
+
+
 def _run(cmd, cwd, timeout, env):
     t0 = time.time()
     try:
-        p = subprocess.run(cmd, cwd=cwd, capture_output=True, text=True, timeout=timeout, env=env)
+        p = subprocess.run(cmd, cwd=cwd, capture_output=True, text=True, timeout=timeout, env=env, preexec_fn=_limit_mem)
         out = p.stdout + "\n" + p.stderr
         rc = p.returncode
     except subprocess.TimeoutExpired as e:
